@@ -60,6 +60,8 @@ class Ctl(object):
         name = name or ('C%d' % idx)
         if kind == 'I':
             line = 'GETINFO ' + name
+        elif kind == 'Q':
+            line = 'QUIT'                 # through the public quit() wrapper
         else:
             line = name
         s = Sub(idx, kind, name, line)
@@ -81,6 +83,8 @@ class Ctl(object):
             elif kind == 'B':
                 # a command given as bytes, with a value that is not ASCII (a str command is ASCII-encoded by the library)
                 d = self.proto.queue_command(line.encode('ascii') + b' Contact="caf\xc3\xa9"')
+            elif kind == 'Q':
+                d = self.proto.quit()
             elif kind == 'K':
                 d = self.proto.queue_command(line, line_cb)
             elif kind == 'I':
